@@ -60,6 +60,17 @@ def gen_case(rng):
             c0, t0 = rng.choice(hc)
             clauses.append(json.loads(json.dumps(c0)))
             text.append(t0)
+    # a second layer: a derived goal negated on its own in one solution and used positively inside another negated derived
+    # goal (the same compound node with both polarities inside one findall)
+    if "h" in preds and rng.random() < 0.5:
+        call = lambda f: {"k": "call", "t": T.Cm(f, T.V(1))}
+        add_clause(T.Cm("k", T.V(1)), [call("h"), call(rng.choice(["g", "e"] + (["m"] if "m" in preds else [])))])
+        dom = call("e")
+        js = [[dom, {"k": "not", "g": [call("h")]}], [dom, {"k": "not", "g": [call("k")]}], [call("k")], [dom, {"k": "not", "g": [call("h"), call("g")]}]]
+        rng.shuffle(js)
+        for b in js[:rng.randint(2, 3)]:
+            add_clause(T.Cm("j", T.V(1)), b)
+        preds += ["k", "j", "j", "j"]
     goal = [{"k": "call", "t": T.Cm(rng.choice(preds), T.V(2))}]
     if rng.random() < 0.3:
         goal.append({"k": "call", "t": T.Cm(rng.choice(preds), T.V(2))})
